@@ -5,7 +5,8 @@ import json
 import sys
 
 pid = sys.argv[1]
-wt = "/tmp/seed_%s" % pid
+rnd = sys.argv[2] if len(sys.argv) > 2 else ""
+wt = "/tmp/seed_%s%s" % (pid, rnd)
 for l in open("/verif/properties.jsonl"):
     p = json.loads(l)
     if p["id"] == pid:
@@ -17,14 +18,16 @@ Statement: {p['statement']}
 Quantified over: {p['quantifier']['text']}
 Code it is anchored in: {', '.join(p['anchors']['files'])}
 
-YOUR TASK: produce up to TWO different, realistic source changes ("seeded faults") to the library code in {wt} (not to tests) such that each change
+YOUR TASK: produce up to {'THREE' if rnd else 'TWO'} different, realistic source changes ("seeded faults") to the library code in {wt} (not to tests) such that each change
   (1) makes the property above FALSE for some admissible input/configuration/history,
   (2) still imports/compiles and still passes the project's existing test-suite, and
-  (3) is NOT exposed by ordinary use at once: it must need something specific to manifest -- a particular interleaving or arrival order, a multi-step sequence of operations, an unusual but admissible input (e.g. sizes not divisible by the process count, an extent equal to the process count, a shift larger than the domain, a point exactly on a knot, odd number of points, a rarely used option), a fault/crash at a particular point, or two cooperating code sites that each look fine alone. Prefer subtle realistic programmer mistakes (off-by-one, wrong index after a refactoring, local-vs-global index, stale buffer, swapped arguments that coincide in the symmetric case, missing special case, wrong tie-break, boundary comparison < vs <=) over crude sabotage. The two changes should exercise different mechanisms.
+  (3) is NOT exposed by ordinary use at once: it must need something specific to manifest -- a particular interleaving or arrival order, a multi-step sequence of operations, an unusual but admissible input (e.g. sizes not divisible by the process count, an extent equal to the process count, a shift larger than the domain, a point exactly on a knot, odd number of points, a rarely used option), a fault/crash at a particular point, or two cooperating code sites that each look fine alone. Prefer subtle realistic programmer mistakes (off-by-one, wrong index after a refactoring, local-vs-global index, stale buffer, swapped arguments that coincide in the symmetric case, missing special case, wrong tie-break, boundary comparison < vs <=) over crude sabotage. The changes should exercise different mechanisms.{" In this round favour mechanisms that depend on HISTORY or CONTEXT rather than on a single call: state carried between calls of the same object (caches, scratch buffers, counters, aliased arrays mutated in place), objects shared by two users, the second/third use of something, a rarely used optional argument or non-default option, an admissible but unusual combination (mixed spline degrees, odd sizes, extents equal to the process count, process extents of 1, complex instead of real data, non-default boundary mode), behaviour that differs between ranks of a process grid, or something that depends on the order in which ranks arrive. Avoid the most obvious single-line arithmetic slips." if rnd else ""}
+
+IMPORTANT: other agents run concurrently on this machine: never use pkill/killall or kill processes by pattern; only stop processes you started yourself, by PID.
 
 ENVIRONMENT FACTS: use /venv/bin/python (3.12; numpy, scipy, h5py(serial), pytest, pyccel installed; no network). The package is installed *editable* pointing at /repo, so to import YOUR modified copy you MUST put the worktree first: run things as `cd {wt} && PYTHONPATH={wt} /venv/bin/python ...` and assert in your demo that `pygyro.__file__` starts with '{wt}'. The real mpi4py cannot be imported here (no libmpi), so every module that does `from mpi4py import MPI` (layout, grid, advection, poisson, diagnostics, setups, saving, fullSimulation) fails to import unless a stand-in `mpi4py` package is first on sys.path; if your demonstration needs those modules, write your OWN minimal stand-in (e.g. a pure-Python `mpi4py/MPI.py` implementing just what you need: COMM_WORLD of size 1, or a small threads-as-ranks simulation with Alltoall/Allgather/Create_cart/Sub/reduce...) inside your demo directory -- that is fine and expected. The existing test-suite is run with: `cd {wt} && PYTHONPATH={wt} /venv/bin/python -m pytest -q -p no:cacheprovider --timeout=900 --continue-on-collection-errors` (about 90 s; 2074 tests pass on the unmodified tree and 8 test modules fail at collection because of the missing MPI library -- that is the expected baseline; your change must keep exactly the same tests passing).
 
-DELIVERABLES, for each change k=1,2 create the directory {wt}/SEED/{pid.lower()}_<short_name>/ containing:
+DELIVERABLES, for each change create the directory {wt}/SEED/{pid.lower()}{rnd}_<short_name>/ containing:
   - patch.diff : `git diff` of the library change only (relative to the worktree HEAD; must apply with `git apply` to a clean checkout of the same commit);
   - demo.py (or demo_test.py) plus any helper files: a self-contained demonstration that exits with status 0 on the UNMODIFIED tree and non-zero (or a failing assertion) WITH the change applied, when run as `cd <tree> && PYTHONPATH=<tree> /venv/bin/python SEED/<dir>/demo.py` (the demo must locate the tree from its own path or the PYTHONPATH, not hard-code {wt});
   - meta.json : {{"property": "{pid}", "name": ..., "files_changed": [...], "what_it_breaks": "...", "needs_to_manifest": "... the specific input / sequence / schedule / configuration ...", "why_tests_still_pass": "...", "commands_run": [...]}}.
